@@ -629,6 +629,29 @@ def _ref_flip(w, r, c, name, tbl, tables):
     return [step, {"op": "aux_read", "c": c, "name": n2}]
 
 
+def _pre_read_change(w, r, c, name, tbl):
+    """The FIRST read of a loaded table falls after the structure changed: a named node has
+    left, or the whole module list of the loading IR was emptied (clear / slice deletion /
+    pop) in one call. Model only; the read itself is queued behind the returned operation."""
+    if tbl.get("raw") is None or tbl["state"] != "untouched" or tbl.get("cv") is None or r.random() > 0.12:
+        return None
+    named = [l for l in sorted(set(_cv_nodes(tbl["cv"], []))) if l in w.m.nodes and w.m.nodes[l].kind != "ir"]
+    if not named:
+        return None
+    home = tbl.get("home")
+    if home in w.m.nodes and w.m.nodes[home].kind == "ir" and w.m.nodes[home].a["modules"] and r.random() < 0.5:
+        meth = r.choice(["clear", "clear", "delslice", "pop"])
+        w.counters["probe:gen_pre_read_module_list_emptied"] += 1
+        if meth == "delslice":
+            return {"op": "listop", "ir": home, "method": "delslice", "args": [[None, None, None]]}
+        return {"op": "listop", "ir": home, "method": meth, "args": []}
+    x = named[r.randrange(len(named))]
+    if w.m.nodes[x].parent is None:
+        return None
+    w.counters["probe:gen_pre_read_detach"] += 1
+    return {"op": "setparent", "child": x, "parent": None}
+
+
 def gen_aux(w, r, allow_unknown=False):
     m = w.m
     cs = m.by_kind("ir", "mod")
@@ -668,6 +691,10 @@ def gen_aux(w, r, allow_unknown=False):
     name = sorted(tables)[r.randrange(len(tables))]
     tbl = tables[name]
     if x < 0.55:
+        pre = _pre_read_change(w, r, c, name, tbl)
+        if pre:
+            w.queue.append({"op": "aux_read", "c": c, "name": name})
+            return pre
         flip = _ref_flip(w, r, c, name, tbl, tables)
         if flip:
             w.queue.extend(flip)
